@@ -292,8 +292,11 @@ func (w *world) randomCmd(fn fin, disciplined bool) string {
 			is = strings.Join(inf, ",")
 		}
 		return fmt.Sprintf("br %s %s %s", hx(s), hx(e), is)
-	case x < 82: // scan lock
+	case x < 82: // scan lock: the MVCCStore call, or the handler-level request with start key / end key / limit
 		s, e := w.rng2()
+		if w.rng.Intn(2) == 0 {
+			return fmt.Sprintf("slh %s %s %s %s", hx(s), hx(e), hx(uint64(w.rng.Intn(4))), hx(w.readTS()))
+		}
 		return fmt.Sprintf("sl %s %s %s", hx(s), hx(e), hx(w.readTS()))
 	case x < 85: // gc
 		s, e := w.rng2()
